@@ -209,11 +209,20 @@ def _walk_lark_tree(op, *, data_def=None) -> data_algebra.expr_rep.Term:
                 args = []
                 if (len(r_op.children) > 1) and (r_op.children[1] is not None):
                     raw_args = r_op.children[1].children
-                    args = [_r_walk_lark_tree(ai) for ai in raw_args]
+                    # (a trailing comma leaves an empty place in the argument list)
+                    args = [_r_walk_lark_tree(ai) for ai in raw_args if ai is not None]
                 if var is not None:
                     method = getattr(var, op_name)
                     return method(*args)
                 else:
+                    if (
+                        (len(args) > 0)
+                        and isinstance(args[0], data_algebra.expr_rep.Term)
+                        and (not op_name.startswith("_"))
+                        and callable(getattr(data_algebra.expr_rep.Term, op_name, None))
+                    ):
+                        # f(x, ...) for a method f is x.f(...): the method checks its arguments
+                        return getattr(args[0], op_name)(*args[1:])
                     return data_algebra.expr_rep.Expression(op=op_name, args=args)
             if r_op.data in {"or_test", "or_test_sym", "and_test", "and_test_sym"}:
                 if len(r_op.children) < 2:
